@@ -82,7 +82,14 @@ LongWordBad2(pad, c, n) == <<83, 69, 76, 69, 67, 84, 32, 107, 32, 70, 82, 79, 77
 LongWordCases == {[kind |-> "bad", text |-> f, allowed |-> {"err"}] :
                     f \in {LongWordBad1(pad, c, n) : pad \in 0..3, c \in {1078, 26085, 128512}, n \in {14, 19, 30, 45}}
                           \cup {LongWordBad2(pad, c, n) : pad \in 0..3, c \in {1078, 26085, 128512}, n \in {14, 19, 30}}}
-ExtraCases == LongWordCases \cup {[kind |-> "patnest", text |-> RareType(w, n), allowed |-> {"err"}] : w \in {8490, 8491, 7838, 304}, n \in {1, 2}}
+\* integer literals at and beyond the 64-bit range in every position that takes a number (projection, LIMIT, subscript, comparison, IN list, after a minus, group
+\* index, JSON index, DEFAULT, next to aggregates, HAVING): 2^63 - 1 is a number; 2^63, 2^63 + 1, 2^64 - 1, 2^64, 10^19, 20 nines are rejected with a located error
+NumFrames == <<<<<<83, 69, 76, 69, 67, 84, 32>>, <<32, 70, 82, 79, 77, 32, 116>>>>, <<<<83, 69, 76, 69, 67, 84, 32, 107, 32, 70, 82, 79, 77, 32, 116, 32, 76, 73, 77, 73, 84, 32>>, <<>>>>, <<<<83, 69, 76, 69, 67, 84, 32, 97, 91>>, <<93, 32, 70, 82, 79, 77, 32, 116>>>>, <<<<83, 69, 76, 69, 67, 84, 32, 107, 32, 70, 82, 79, 77, 32, 116, 32, 87, 72, 69, 82, 69, 32, 118, 32, 61, 32>>, <<>>>>, <<<<83, 69, 76, 69, 67, 84, 32, 107, 32, 70, 82, 79, 77, 32, 116, 32, 87, 72, 69, 82, 69, 32, 118, 32, 73, 78, 32, 40, 49, 44, 32>>, <<41>>>>, <<<<83, 69, 76, 69, 67, 84, 32, 107, 32, 70, 82, 79, 77, 32, 116, 32, 87, 72, 69, 82, 69, 32, 118, 32, 62, 32, 45>>, <<>>>>, <<<<83, 69, 76, 69, 67, 84, 32, 118, 32, 43, 32>>, <<32, 70, 82, 79, 77, 32, 116>>>>, <<<<67, 82, 69, 65, 84, 69, 32, 84, 65, 66, 76, 69, 32, 116, 40, 108, 105, 110, 101, 32, 61, 32, 39, 97, 39, 44, 32, 108, 105, 110, 101, 91>>, <<93, 32, 61, 62, 32, 120, 32, 84, 69, 88, 84, 41, 59>>>>, <<<<67, 82, 69, 65, 84, 69, 32, 84, 65, 66, 76, 69, 32, 116, 40, 123, 32, 46, 97, 91>>, <<93, 32, 125, 32, 61, 62, 32, 120, 32, 73, 78, 84, 41, 59>>>>, <<<<67, 82, 69, 65, 84, 69, 32, 84, 65, 66, 76, 69, 32, 116, 40, 108, 105, 110, 101, 32, 61, 32, 39, 97, 39, 44, 32, 108, 105, 110, 101, 91, 49, 93, 32, 61, 62, 32, 120, 32, 73, 78, 84, 32, 68, 69, 70, 65, 85, 76, 84, 32>>, <<41, 59>>>>, <<<<83, 69, 76, 69, 67, 84, 32, 80, 69, 82, 67, 69, 78, 84, 73, 76, 69, 40, 118, 44, 32, 48, 46, 53, 41, 32, 65, 83, 32, 112, 44, 32, 67, 79, 85, 78, 84, 40, 42, 41, 32, 43, 32>>, <<32, 65, 83, 32, 110, 32, 70, 82, 79, 77, 32, 116>>>>, <<<<83, 69, 76, 69, 67, 84, 32, 107, 44, 32, 67, 79, 85, 78, 84, 40, 42, 41, 32, 65, 83, 32, 110, 32, 70, 82, 79, 77, 32, 116, 32, 71, 82, 79, 85, 80, 32, 66, 89, 32, 107, 32, 72, 65, 86, 73, 78, 71, 32, 67, 79, 85, 78, 84, 40, 42, 41, 32, 60, 32>>, <<>>>>>>
+NumsInRange == {<<57, 50, 50, 51, 51, 55, 50, 48, 51, 54, 56, 53, 52, 55, 55, 53, 56, 48, 55>>, <<48, 48, 48, 48, 48, 48, 48, 48, 48, 48, 48, 48, 48, 48, 48, 48, 48, 48, 48, 48, 48, 48, 48, 48, 49>>, <<57, 50, 50, 51, 51, 55, 50, 48, 51, 54, 56, 53, 52, 55, 55, 53, 56, 48, 54>>}
+NumsBeyond == {<<57, 50, 50, 51, 51, 55, 50, 48, 51, 54, 56, 53, 52, 55, 55, 53, 56, 48, 56>>, <<57, 50, 50, 51, 51, 55, 50, 48, 51, 54, 56, 53, 52, 55, 55, 53, 56, 48, 57>>, <<57, 50, 50, 51, 51, 55, 50, 48, 51, 54, 56, 53, 52, 55, 55, 53, 56, 49, 48>>, <<49, 56, 52, 52, 54, 55, 52, 52, 48, 55, 51, 55, 48, 57, 53, 53, 49, 54, 49, 53>>, <<49, 56, 52, 52, 54, 55, 52, 52, 48, 55, 51, 55, 48, 57, 53, 53, 49, 54, 49, 54>>, <<57, 57, 57, 57, 57, 57, 57, 57, 57, 57, 57, 57, 57, 57, 57, 57, 57, 57, 57, 57>>, <<49, 48, 48, 48, 48, 48, 48, 48, 48, 48, 48, 48, 48, 48, 48, 48, 48, 48, 48, 48>>, <<57, 50, 50, 51, 51, 55, 50, 48, 51, 54, 56, 53, 52, 55, 55, 53, 56, 49, 55>>}
+NumberCases == {[kind |-> "number", text |-> NumFrames[i][1] \o n \o NumFrames[i][2], allowed |-> {"ok", "err"}] : i \in 1..Len(NumFrames), n \in NumsInRange}
+               \cup {[kind |-> "bad", text |-> NumFrames[i][1] \o n \o NumFrames[i][2], allowed |-> {"err"}] : i \in 1..Len(NumFrames), n \in NumsBeyond}
+ExtraCases == NumberCases \cup LongWordCases \cup {[kind |-> "patnest", text |-> RareType(w, n), allowed |-> {"err"}] : w \in {8490, 8491, 7838, 304}, n \in {1, 2}}
               \cup {[kind |-> "nest", text |-> NestTuple(n), allowed |-> {"ok", "err"}] : n \in {2, 8, 24, 48}}
               \cup {[kind |-> "bad", text |-> f, allowed |-> {"err"}] : f \in {WideBad(w) : w \in WideSpaces} \cup {WideBad2(w) : w \in WideSpaces}}
               \cup {[kind |-> "patnest", text |-> f, allowed |-> {"ok", "err"}] :
